@@ -6,6 +6,7 @@ import Driver.CliD
 import Driver.StreamD
 import Driver.LifeD
 import Driver.PendD
+import Driver.ChanD
 /-!
 # `limedriver` — line protocol in front of the executable model
 
@@ -30,6 +31,7 @@ def dispatch (j : Json) : R Json := do
   | "cliwants" => CliD.handleWants j
   | "clijudge" => CliD.handleJudge j
   | "build" => CodecD.handleBuild j
+  | "chanjudge" => ChanD.handle j
   | "pend" => PendD.handle j
   | "life" => LifeD.handle j
   | "wloop" => StreamD.handleWloop j
